@@ -44,7 +44,11 @@ import (
 // offsets stays below one second and every whole-second reading is the one
 // the model computes with f = 0.
 
-const tau = 8 * time.Millisecond
+const tau = 20 * time.Millisecond
+
+// an op that changed stored state and took longer than this (real time) may
+// have stamped its entries noticeably late: the generator then ends the case.
+const taintAfter = 8 * time.Millisecond
 
 var (
 	zeroPrefix netip.Prefix
@@ -189,6 +193,7 @@ type upstream struct {
 	calls    map[string]int // reached the upstream
 	answered map[string]int // ... and the upstream answered
 	base     int64
+	at       time.Time
 }
 
 func (u *upstream) Name() string { return "upstream" }
@@ -208,7 +213,8 @@ func (u *upstream) ServeDNS(ctx context.Context, ch *middleware.Chain) {
 	u.answered[tok]++
 	if sp.lease != nil {
 		if meta := middleware.ResponseMetaFrom(ctx); meta != nil {
-			meta.BoundCutFor(time.Now().Add(time.Duration(*sp.lease)*time.Second), 7)
+			// the lease is observed at the op instant
+			meta.BoundCutFor(u.at.Add(time.Duration(*sp.lease)*time.Second), 7)
 		}
 	}
 	_ = ch.Writer.WriteMsg(sp.build(req, u.base))
@@ -238,6 +244,8 @@ type histT struct {
 	V      int64
 	j      int64
 	shift  time.Duration
+	syncAt time.Time // real instant of the last sync
+	taint  bool      // the last state-changing op was slow (see taintAfter)
 	ecsCap int64
 	marks  int
 
@@ -288,6 +296,23 @@ func (h *histT) sync() {
 	want := time.Duration(h.V)*time.Second + time.Duration(h.j)*tau - time.Since(h.t0)
 	cache.VerifShift(h.c, want-h.shift)
 	h.shift = want
+	h.syncAt = time.Now()
+}
+
+// tol: how far a stored timestamp of this op may lie after the op instant.
+func (h *histT) tol() time.Duration {
+	d := time.Since(h.syncAt) + time.Millisecond
+	if d < tau/2 {
+		d = tau / 2
+	}
+	return d
+}
+
+// settle is called at the end of an op that changed stored state.
+func (h *histT) settle(changed bool) {
+	if changed && time.Since(h.syncAt) > taintAfter {
+		h.taint = true
+	}
 }
 
 // virt converts a real instant into virtual time since the case start.
@@ -450,8 +475,8 @@ func tokens(recs []recTok, fresh map[string]int) string {
 }
 
 // ceilRel canonicalises a virtual duration relative to the op instant:
-// whole seconds, rounding up, tolerant of the few ms the op itself took.
-func ceilRel(d time.Duration) int64 { return ceilSec(d - 4*time.Millisecond) }
+// whole seconds, rounding up, tolerant of the time the op itself took.
+func (h *histT) ceilRel(d time.Duration) int64 { return ceilSec(d - h.tol()) }
 
 // listing reports (and registers) every slot whose stored entry changed.
 type change struct {
@@ -492,7 +517,7 @@ func (h *histT) listing(chs []change) string {
 		}
 		cut := "-"
 		if !c.view.CutUntil.IsZero() {
-			cut = strconv.FormatInt(ceilRel(h.virt(c.view.CutUntil)-h.vnow()), 10)
+			cut = strconv.FormatInt(h.ceilRel(h.virt(c.view.CutUntil)-h.vnow()), 10)
 		}
 		parts = append(parts, fmt.Sprintf("%s=%d/%s", name, ceilSec(c.view.TTL), cut))
 	}
@@ -503,6 +528,13 @@ func (h *histT) listing(chs []change) string {
 }
 
 func fail(sig, format string, a ...any) string {
+	// keep signatures stable: the limiting component, not which piece it was
+	if i := strings.Index(sig, "/piece-"); i >= 0 {
+		sig = sig[:i] + "/piece"
+	}
+	if i := strings.Index(sig, "-piece-"); i >= 0 {
+		sig = sig[:i] + "-piece"
+	}
 	return "FAIL sig=" + sig + " " + fmt.Sprintf(format, a...)
 }
 
@@ -603,7 +635,7 @@ func (h *histT) judgeReply(qtok string, recs []recTok, freshCalls map[string]int
 		if r.ttl > end-h.V-1 {
 			note(fail("c/hit/shown-ttl-exceeds-remaining/"+best.lim, "piece=%s shown=%d remaining<%ds", r.tok, r.ttl, end-h.V))
 		}
-		key := fmt.Sprintf("%s|%s#%d", holder, r.tok, r.mark)
+		key := fmt.Sprintf("%s|%s#%d.%d/%v", holder, r.tok, r.mark, o.gen, r.ns)
 		if last, ok := h.shown[key]; ok && r.ttl > last {
 			note(fail("c/hit/shown-ttl-grew", "piece=%s shown=%d earlier=%d", r.tok, r.ttl, last))
 		}
@@ -676,15 +708,36 @@ func (h *histT) register(chs []change, script map[string]*specT, recs []recTok, 
 		// composed: anything re-cached from cached pieces inherits the
 		// shortest lifetime among them
 		if !refresh {
+			hasAns := map[string]bool{}
+			for _, r := range recs {
+				if !r.ns {
+					hasAns[r.tok] = true
+				}
+			}
+			var aliasBest int64 = -1 << 40 // longest remaining among cached chain pieces seen so far
 			for _, t := range chainAfter(recs, c.k.tok) {
 				if freshCalls[t] > 0 || t[0] != 'n' {
 					continue
 				}
 				// sub-queries see the shared slot only
-				if p := h.led[slotKey{t, false}]; p != nil {
-					if rem := p.admitV + p.life - h.V; rem < life {
-						life, lim = rem, "piece-"+t
+				p := h.led[slotKey{t, false}]
+				rem := int64(-1 << 40)
+				if p != nil {
+					rem = p.admitV + p.life - h.V
+				}
+				if hasAns[t] {
+					if rem > aliasBest {
+						aliasBest = rem
 					}
+				} else if !strictCopies && aliasBest > rem {
+					// authority-only piece: may be a copy held by a cached alias
+					rem = aliasBest
+				}
+				if p == nil && rem < 0 {
+					continue
+				}
+				if rem < life {
+					life, lim = rem, "piece-"+t
 				}
 			}
 		}
@@ -694,7 +747,7 @@ func (h *histT) register(chs []change, script map[string]*specT, recs []recTok, 
 		// admission bound: the stored lifetime may not exceed the permitted one
 		got := ceilSec(c.view.TTL)
 		if !c.view.CutUntil.IsZero() {
-			if cr := ceilRel(h.virt(c.view.CutUntil) - h.vnow()); cr < got {
+			if cr := h.ceilRel(h.virt(c.view.CutUntil) - h.vnow()); cr < got {
 				got = cr
 			}
 		}
@@ -772,12 +825,13 @@ func (h *histT) query(route, tok string, ecs, do bool, up string) vlib.Res {
 	script := h.setScript(up)
 	waitRoom()
 	h.sync()
-	h.up.base = time.Now().Unix()
+	h.up.base, h.up.at = time.Now().Unix(), h.syncAt
 	f0, c0, k0 := cache.VerifC04Counters()
 	reply := h.run(route, mkReq(tok, ecs, do))
 	f1, c1, k1 := cache.VerifC04Counters()
 	calls := h.up.answered
 	chs := h.changes()
+	h.settle(len(chs) > 0)
 	var recs []recTok
 	head := "miss"
 	if reply != nil {
@@ -870,9 +924,10 @@ func (h *histT) pfdone(tok, up string) vlib.Res {
 	genBefore := h.gens[k]
 	waitRoom()
 	h.sync()
-	h.up.base = time.Now().Unix()
+	h.up.base, h.up.at = time.Now().Unix(), h.syncAt
 	cache.VerifC04ProcessPrefetch(h.c, mkReq(tok, false, false), keyOf(tok, false), h.captured[tok])
 	chs := h.changes()
+	h.settle(len(chs) > 0)
 	replaced := false
 	for _, c := range chs {
 		if c.k == k && !c.gone {
@@ -936,7 +991,7 @@ func (h *histT) cutrec(k, itemS, leaseS string) vlib.Res {
 		}
 		var cu time.Time
 		if leaseS != "-" {
-			cu = time.Now().Add(time.Duration(vlib.AtoI64(leaseS)) * time.Second)
+			cu = h.syncAt.Add(time.Duration(vlib.AtoI64(leaseS)) * time.Second)
 		}
 		ok = cache.VerifC04Store(h.c).RecordNXDomainCut(proof, denied, "z.test.", cu)
 	}
@@ -945,8 +1000,9 @@ func (h *histT) cutrec(k, itemS, leaseS string) vlib.Res {
 		// rejecting is always safe; an earlier cut for the name stays
 		return vlib.Res{Impl: "f", Oracle: "ok", Tags: "nt"}
 	}
+	h.settle(true)
 	exp, _ := cache.VerifC04CutExpiry(h.c, denied, dns.ClassINET)
-	got := ceilRel(h.virt(exp) - h.vnow())
+	got := h.ceilRel(h.virt(exp) - h.vnow())
 	// oracle: no floor — the cut may outlive no component of its proof
 	or := "ok"
 	life := int64(86400)
